@@ -7,7 +7,7 @@ import "context"
 // Verification hooks. They are empty (and inlined away) unless the package is
 // built with -tags verif; see verif_on.go.
 
-func verifGo(phase int)                                {}
+func verifGo(phase int)                                 {}
 func verifPoint(kind int, obj any, ctx context.Context) {}
 func verifAccess(obj any, field string, write bool)     {}
 func verifLock(mu any, phase int)                       {}
